@@ -250,12 +250,16 @@ class Explainer:
 
     def prepare(self, vectors):
         """vectors: the cases that need an explanation."""
-        self.table = {}
+        if self.table is None:
+            self.table, self.done = {}, set()
         uniq = {}
         for v in vectors:
-            uniq[case_key(v)] = v
+            k = case_key(v)
+            if k not in self.done:
+                uniq[k] = v
         if not uniq:
             return
+        self.done |= set(uniq)
         cases = "".join(json.dumps({"pa": v["pa"], "ra": v["ra"], "tagged": v.get("tagged", False), "pv": v["pv"], "rv": v["rv"]}) + "\n" for v in uniq.values())
         devsets = "".join(json.dumps({"devs": d}) + "\n" for d in self.devsets)
         r = self.ctx.gen("mc/Explain_HTTPTransport", "mc/Explain_HTTPTransport.cfg", consts={"NPA": self.npa, "NRA": self.nra},
@@ -265,7 +269,7 @@ class Explainer:
 
     def explain(self, v, o, focus=None):
         """Name of the deviation (or 'a+b') under which the model does what the code did, else None."""
-        if self.table is None:
+        if self.table is None or case_key(v) not in self.done:
             self.prepare([v])
         want = obs_sig(v, o)
         ck = case_key(v)
@@ -277,3 +281,96 @@ class Explainer:
             if any(match(s) for s in self.table.get((ck, "+".join(sorted(ds))), [])):
                 return "+".join(ds)
         return None
+
+
+# ------------------------------------------------------------------ trace validation (J) of the executed scenarios
+def trace_lines(c):
+    """Trace events of one executed case (projection only: nothing is judged here)."""
+    v, o = c["v"], c["obs"]
+    out = [{"ev": "reset", "pa": v["pa"], "ra": v["ra"], "tagged": v.get("tagged", False), "pv": v["pv"], "rv": v["rv"]}]
+    if o["where"] is None:
+        return None
+    out.append({"ev": "wire", "where": o["where"]})
+    if o["invoked"]:
+        out.append({"ev": "invoke", "delivered": o["delivered"]})
+        out.append({"ev": "resp", "status": o["status"], "errname": o["errname"], "rwhere": o["rwhere"] if o["rwhere"] is not None else [[] for _ in v["ra"]]})
+    else:
+        out.append({"ev": "resp", "status": o["status"], "errname": o["errname"], "rwhere": []})
+    cerr = o["cerr"]
+    ev = {"ev": "client", "cerr": cerr, "returned": o["returned"] if o["returned"] is not None else []}
+    out.append(ev)
+    return out
+
+
+def explained_ids(ex, cases):
+    """ids of the cases whose observed behaviour is exactly the mechanism's under some named deviation
+    (they are reported under that deviation's key by the checks and stay out of the trace)."""
+    odd = [c for c in cases if obs_sig(c["v"], c["obs"]) != mech_sig(c["v"])]
+    ex.prepare([c["v"] for c in odd])
+    return {c["id"] for c in odd if ex.explain(c["v"], c["obs"]) is not None}
+
+
+def validate_cases(ctx, cases, prop, skip_ids=(), maxfail=5, label="trace", ex=None):
+    """Batch TLC trace validation of the executed cases against the property-as-specification. Cases
+    attributed to a named deviation are left out. Returns the number of cases validated."""
+    import os
+    skip_ids = set(skip_ids)
+    if ex is not None:
+        skip_ids |= explained_ids(ex, cases)
+    todo = [c for c in cases if c["id"] not in skip_ids and not c["obs"]["anomalies"]]
+    blocks = [(c, trace_lines(c)) for c in todo]
+    blocks = [(c, b) for c, b in blocks if b]
+    fails = 0
+    total = len(blocks)
+    while blocks:
+        d = ctx.subdir(label)
+        p = os.path.join(d, "trace.ndjson")
+        owners = []
+        with open(p, "w") as f:
+            for c, b in blocks:
+                for line in b:
+                    f.write(json.dumps(line) + "\n")
+                    owners.append(c)
+        ok, hwm, r = ctx.trace_validate("trace/Trace_HTTPTransport", "trace/Trace_HTTPTransport.cfg", p, label=label, timeout=1500)
+        if ok:
+            break
+        if hwm is None:
+            raise core.Infra("Trace_HTTPTransport produced no high-water mark:\n" + r.stdout[-2000:])
+        bad = owners[hwm - 1]
+        v = bad["v"]
+        fam = v.get("fam", "req")
+        a = (v["pa"] if fam == "req" else v["ra"])[0]
+        ctx.violation("%s/trace/%s/%s" % (prop, attr_tag(a), val_tag((v["pv"] if fam == "req" else v["rv"])[0])),
+                      "Trace_HTTPTransport rejects the recorded exchange at its event %d" % hwm, short_case(bad))
+        fails += 1
+        blocks = [(c, b) for c, b in blocks if c is not bad]
+        if fails >= maxfail:
+            break
+    ctx.cov["traces_validated_against_impl"] += total
+    return total
+
+
+def trace_selftest(ctx, cases):
+    """Corrupt one recorded observation of an accepted exchange: TLC must reject exactly there."""
+    import os
+    good = [c for c in cases if c["obs"]["invoked"] and c["obs"]["delivered"] and c["obs"]["delivered"][0] == "sent" and not c["obs"]["anomalies"]][:20]
+    if not good:
+        return
+    lines, tgt = [], None
+    for k, c in enumerate(good):
+        b = trace_lines(c)
+        for line in b:
+            if k == 10 and line["ev"] == "invoke" and tgt is None:
+                line = dict(line, delivered=["other"] + line["delivered"][1:])
+                tgt = len(lines) + 1
+            lines.append(line)
+    if tgt is None:
+        return
+    d = ctx.subdir("selftest")
+    p = os.path.join(d, "trace.ndjson")
+    open(p, "w").write("".join(json.dumps(x) + "\n" for x in lines))
+    ok, hwm, _ = ctx.trace_validate("trace/Trace_HTTPTransport", "trace/Trace_HTTPTransport.cfg", p, label="selftest")
+    res = {"corrupted_line": tgt, "rejected_at": hwm, "ok": (not ok and hwm == tgt)}
+    ctx.cov.setdefault("trace_selftests", []).append(res)
+    if not res["ok"]:
+        raise core.Infra("trace self-test failed: %s" % res)
